@@ -5,6 +5,7 @@ import (
 	"path/filepath"
 	"sort"
 	"sync"
+	"sync/atomic"
 	"time"
 
 	"golang.org/x/tools/go/ssa"
@@ -117,6 +118,15 @@ func (r *propRun) explore(j Job) *jobResult {
 	var wg sync.WaitGroup
 	t1 := time.Now()
 	deadline := t1.Add(j.Cap)
+	var abort int32
+	stopTimer := time.AfterFunc(j.Cap+20*time.Second, func() {
+		atomic.StoreInt32(&abort, 1)
+		mu.Lock()
+		done, capped = true, true
+		cond.Broadcast()
+		mu.Unlock()
+	})
+	defer stopTimer.Stop()
 	res := &jobResult{Job: j, Covers: map[string]int{}, Funcs: map[string]bool{}, Intrinsics: map[string]bool{}, ViolCounts: map[string]int{}}
 	nw := r.workers
 	perWorkerSamples := 0
@@ -145,6 +155,7 @@ func (r *propRun) explore(j Job) *jobResult {
 		m.ExploreCrash = j.Fn2 != ""
 		m.MaxCrashes = j.MaxCrashes
 		m.ExploreTears = j.Tears
+		m.Abort = &abort
 		m.ZoneOnly = j.ZoneOnly
 		m.OnlyAsserts = j.OnlyAsserts
 		m.IgnorePanics = j.IgnorePanics
@@ -195,7 +206,7 @@ func (r *propRun) explore(j Job) *jobResult {
 	wg.Wait()
 	res.Wall = time.Since(t1)
 	mu.Lock()
-	res.Complete = !(capped && (len(work) > 0))
+	res.Complete = !(capped && (len(work) > 0)) && atomic.LoadInt32(&abort) == 0
 	mu.Unlock()
 	for _, m := range machines {
 		res.Paths += m.Paths
